@@ -52,3 +52,7 @@ pub assume_specification[ <[u8]>::eq_ignore_ascii_case ](a: &[u8], b: &[u8]) -> 
 pub assume_specification<T, U, F: FnOnce(T) -> U>[ Option::<T>::map_or ](o: Option<T>, default: U, f: F) -> (r: U)
     requires o matches Some(t) ==> f.requires((t,)),
     ensures match o { Some(t) => f.ensures((t,), r), None => r == default };
+
+/// std: u8::is_ascii_whitespace -- U+0020 SPACE, U+0009 TAB, U+000A LF, U+000C FORM FEED, U+000D CR
+pub assume_specification[ u8::is_ascii_whitespace ](b: &u8) -> (r: bool)
+    ensures r == (*b == 0x20 || *b == 0x09 || *b == 0x0a || *b == 0x0c || *b == 0x0d);
